@@ -222,6 +222,29 @@ fn eval_case(c: &Value) -> (Value, Vec<String>) {
                 other => panic!("unknown wire case {other}"),
             }
         }
+        "offsets" => {
+            // block boundaries of a very large object: an untouched zero allocation of F octets (never read) is enough
+            let (t, kt, z, r) = (c["t"].as_u64().unwrap(), c["kt"].as_u64().unwrap(), c["z"].as_u64().unwrap(), c["r"].as_u64().unwrap());
+            let f = (kt - 1) * t + r;
+            let want: Vec<(u64, u64)> = c["blocks"].as_array().unwrap().iter().map(|b| (b[0].as_u64().unwrap() * t, b[1].as_u64().unwrap() * t)).collect();
+            let res = catch(move || {
+                let data = vec![0u8; f as usize];
+                let oti = Oti::new(f, t as u16, z as u8, 1, 1);
+                raptorq::calculate_block_offsets(&data, &oti)
+            });
+            match res {
+                Ok(v) => {
+                    let g: Vec<(u64, u64)> = v.iter().map(|x| (x.0 as u64, x.1 as u64)).collect();
+                    got = json!({"offsets": g.iter().take(8).collect::<Vec<_>>(), "n": g.len()});
+                    if g != want {
+                        let first = g.iter().zip(want.iter()).position(|(a, b)| a != b);
+                        mism.push(format!("source block boundaries differ from Partition[Kt, Z] of RFC 6330 4.4.1.2 (F = {f}, first difference at block {first:?}: {:?} vs {:?})",
+                                          first.map(|i| g[i]), first.map(|i| want[i])));
+                    }
+                }
+                Err(m) => mism.push(format!("calculate_block_offsets panicked on a valid configuration (F = {f}): {m}")),
+            }
+        }
         "layout" => {
             let f = c["f"].as_u64().unwrap();
             let (t, z, nn, al) = (c["t"].as_u64().unwrap() as u16, c["z"].as_u64().unwrap() as u8,
